@@ -53,6 +53,7 @@ struct pfn
         g_log.push_back(rec<T>(p.point(), p.weight(), nullptr, 0));
         T const v = fval<T>(p.point());
         proj.add(0, p.point()[0], v);
+        proj.add(1, p.point()[1], p.point()[0], v);
         return v;
     }
     T operator()(hep::vegas_point<T> const& p) const { g_log.push_back(rec<T>(p.point(), p.weight(), &p.bin(), 0)); return fval<T>(p.point()); }
@@ -61,6 +62,7 @@ struct pfn
         g_log.push_back(rec<T>(p.point(), p.weight(), &p.bin(), 0));
         T const v = fval<T>(p.point());
         proj.add(0, p.point()[0], v);
+        proj.add(1, p.point()[1], p.point()[0], v);
         return v;
     }
     T operator()(hep::multi_channel_point<T> const& p) const
@@ -74,6 +76,7 @@ struct pfn
         T const v = fval<T>(p.coordinates());
         g_log.push_back(rec<T>(p.coordinates(), p.weight(), nullptr, p.channel()));
         proj.add(0, p.coordinates()[0], v);
+        proj.add(1, p.coordinates()[0], p.point()[0], v);
         return v;
     }
 };
@@ -98,12 +101,12 @@ template <typename T, typename E> struct kit<T, E, 0>
     static sz numbers() { return 2; }
     template <typename CB> static C mpi(std::vector<sz> const& calls, bool dist, CB cb)
     {
-        return dist ? hep::mpi_plain(MPI_COMM_WORLD, hep::make_integrand<T>(pfn<T>(), 2, hep::make_dist_params<T>(3, T(0), T(1), "d")), calls, fresh(), cb)
+        return dist ? hep::mpi_plain(MPI_COMM_WORLD, hep::make_integrand<T>(pfn<T>(), 2, hep::make_dist_params<T>(3, T(0), T(1), "d"), hep::distribution_parameters<T>(2, 2, T(0), T(1), T(0), T(1), "e")), calls, fresh(), cb)
                     : hep::mpi_plain(MPI_COMM_WORLD, hep::make_integrand<T>(pfn<T>(), 2), calls, fresh(), cb);
     }
     static R serial(R const&, sz calls, bool dist, E& gen)
     {
-        return dist ? hep::plain_iteration(hep::make_integrand<T>(pfn<T>(), 2, hep::make_dist_params<T>(3, T(0), T(1), "d")), calls, gen)
+        return dist ? hep::plain_iteration(hep::make_integrand<T>(pfn<T>(), 2, hep::make_dist_params<T>(3, T(0), T(1), "d"), hep::distribution_parameters<T>(2, 2, T(0), T(1), T(0), T(1), "e")), calls, gen)
                     : hep::plain_iteration(hep::make_integrand<T>(pfn<T>(), 2), calls, gen);
     }
     static std::vector<T> adj(R const&) { return {}; }
@@ -117,12 +120,12 @@ template <typename T, typename E> struct kit<T, E, 1>
     static sz numbers() { return 2; }
     template <typename CB> static C mpi(std::vector<sz> const& calls, bool dist, CB cb)
     {
-        return dist ? hep::mpi_vegas(MPI_COMM_WORLD, hep::make_integrand<T>(pfn<T>(), 2, hep::make_dist_params<T>(3, T(0), T(1), "d")), calls, fresh(), cb)
+        return dist ? hep::mpi_vegas(MPI_COMM_WORLD, hep::make_integrand<T>(pfn<T>(), 2, hep::make_dist_params<T>(3, T(0), T(1), "d"), hep::distribution_parameters<T>(2, 2, T(0), T(1), T(0), T(1), "e")), calls, fresh(), cb)
                     : hep::mpi_vegas(MPI_COMM_WORLD, hep::make_integrand<T>(pfn<T>(), 2), calls, fresh(), cb);
     }
     static R serial(R const& like, sz calls, bool dist, E& gen)
     {
-        return dist ? hep::vegas_iteration(hep::make_integrand<T>(pfn<T>(), 2, hep::make_dist_params<T>(3, T(0), T(1), "d")), calls, like.pdf(), gen)
+        return dist ? hep::vegas_iteration(hep::make_integrand<T>(pfn<T>(), 2, hep::make_dist_params<T>(3, T(0), T(1), "d"), hep::distribution_parameters<T>(2, 2, T(0), T(1), T(0), T(1), "e")), calls, like.pdf(), gen)
                     : hep::vegas_iteration(hep::make_integrand<T>(pfn<T>(), 2), calls, like.pdf(), gen);
     }
     static std::vector<T> adj(R const& r) { return r.adjustment_data(); }
@@ -155,12 +158,12 @@ template <typename T, typename E, int K> struct wide_kit
     static C fresh() { E g; g.seed(5); return hep::make_multi_channel_chkpt<T, E>(T(0.01L), T(0.5), g); }
     template <typename CB> static C mpi(std::vector<sz> const& calls, bool dist, CB cb)
     {
-        return dist ? hep::mpi_multi_channel(MPI_COMM_WORLD, hep::make_multi_channel_integrand<T>(pfn<T>(), 1, wide_map<T>{channels()}, mapdims(), channels(), hep::make_dist_params<T>(3, T(0), T(1), "d")), calls, fresh(), cb)
+        return dist ? hep::mpi_multi_channel(MPI_COMM_WORLD, hep::make_multi_channel_integrand<T>(pfn<T>(), 1, wide_map<T>{channels()}, mapdims(), channels(), hep::make_dist_params<T>(3, T(0), T(1), "d"), hep::distribution_parameters<T>(2, 2, T(0), T(1), T(0), T(1), "e")), calls, fresh(), cb)
                     : hep::mpi_multi_channel(MPI_COMM_WORLD, hep::make_multi_channel_integrand<T>(pfn<T>(), 1, wide_map<T>{channels()}, mapdims(), channels()), calls, fresh(), cb);
     }
     static R serial(R const& like, sz calls, bool dist, E& gen)
     {
-        return dist ? hep::multi_channel_iteration(hep::make_multi_channel_integrand<T>(pfn<T>(), 1, wide_map<T>{channels()}, mapdims(), channels(), hep::make_dist_params<T>(3, T(0), T(1), "d")), calls, like.channel_weights(), gen)
+        return dist ? hep::multi_channel_iteration(hep::make_multi_channel_integrand<T>(pfn<T>(), 1, wide_map<T>{channels()}, mapdims(), channels(), hep::make_dist_params<T>(3, T(0), T(1), "d"), hep::distribution_parameters<T>(2, 2, T(0), T(1), T(0), T(1), "e")), calls, like.channel_weights(), gen)
                     : hep::multi_channel_iteration(hep::make_multi_channel_integrand<T>(pfn<T>(), 1, wide_map<T>{channels()}, mapdims(), channels()), calls, like.channel_weights(), gen);
     }
     static std::vector<T> adj(R const& r) { return r.adjustment_data(); }
@@ -177,12 +180,12 @@ template <typename T, typename E> struct kit<T, E, 2>
     static vf::pl_map<T> map() { vf::pl_map<T> m; m.split = {T(0.25), T(0.5), T(0.75)}; return m; }
     template <typename CB> static C mpi(std::vector<sz> const& calls, bool dist, CB cb)
     {
-        return dist ? hep::mpi_multi_channel(MPI_COMM_WORLD, hep::make_multi_channel_integrand<T>(pfn<T>(), 1, map(), 1, 3, hep::make_dist_params<T>(3, T(0), T(1), "d")), calls, fresh(), cb)
+        return dist ? hep::mpi_multi_channel(MPI_COMM_WORLD, hep::make_multi_channel_integrand<T>(pfn<T>(), 1, map(), 1, 3, hep::make_dist_params<T>(3, T(0), T(1), "d"), hep::distribution_parameters<T>(2, 2, T(0), T(1), T(0), T(1), "e")), calls, fresh(), cb)
                     : hep::mpi_multi_channel(MPI_COMM_WORLD, hep::make_multi_channel_integrand<T>(pfn<T>(), 1, map(), 1, 3), calls, fresh(), cb);
     }
     static R serial(R const& like, sz calls, bool dist, E& gen)
     {
-        return dist ? hep::multi_channel_iteration(hep::make_multi_channel_integrand<T>(pfn<T>(), 1, map(), 1, 3, hep::make_dist_params<T>(3, T(0), T(1), "d")), calls, like.channel_weights(), gen)
+        return dist ? hep::multi_channel_iteration(hep::make_multi_channel_integrand<T>(pfn<T>(), 1, map(), 1, 3, hep::make_dist_params<T>(3, T(0), T(1), "d"), hep::distribution_parameters<T>(2, 2, T(0), T(1), T(0), T(1), "e")), calls, like.channel_weights(), gen)
                     : hep::multi_channel_iteration(hep::make_multi_channel_integrand<T>(pfn<T>(), 1, map(), 1, 3), calls, like.channel_weights(), gen);
     }
     static std::vector<T> adj(R const& r) { return r.adjustment_data(); }
